@@ -53,11 +53,20 @@ def euler_residuals(o, f, r, t, k, hr, ht, tol, regime, steady=False, label='', 
         s_ene = np.maximum(np.abs(ft['e']) + np.abs(u * fr['e']) + np.abs((p / rho) * fr['u']) + np.abs(p / rho * geo), c ** 3 / L)
         s_mass, s_mom, s_ene = (np.where(v > 0, v, 1.0) for v in (s_mass, s_mom, s_ene))
         res.append(np.vstack([mass / s_mass, mom / s_mom, ene / s_ene]))
+        # rounding error of the difference quotients themselves (eps |f| / h, and eps |r| f' / h from the rounding of r + h): negligible for
+        # ordinary steps, but not in a fan that is only 1e-6 of the sound speed wide, where the step is 1e-9 of the position
+        EPS3 = 3 * 2.3e-16
+        hr_, ht_ = np.abs(hr * fac) + 1e-300, np.abs(ht * fac) + 1e-300
+        nr = {kk: EPS3 * (np.abs(f0[kk]) + np.abs(fr[kk]) * np.abs(r)) / hr_ for kk in ('rho', 'u', 'p', 'e')}
+        nt = {kk: (0.0 if steady else EPS3 * (np.abs(f0[kk]) + np.abs(ft[kk]) * abs(t)) / ht_ * time_scale) for kk in ('rho', 'u', 'p', 'e')}
+        noise = np.vstack([(nt['rho'] + np.abs(u) * nr['rho'] + rho * nr['u']) / s_mass,
+                           (nt['u'] + np.abs(u) * nr['u'] + nr['p'] / np.where(rho > 0, rho, 1)) / s_mom,
+                           (nt['e'] + np.abs(u) * nr['e'] + np.abs(p / np.where(rho > 0, rho, 1)) * nr['u']) / s_ene])
         if fac == 1.0:
             nonconst = np.any((np.abs(fr['rho']) * L > 1e-3 * rho) | (np.abs(fr['u']) * L > 1e-3 * c))
     worst = np.minimum(np.abs(res[0]), np.abs(res[1]))
     for i, name in enumerate(('mass', 'momentum', 'energy')):
-        o.close(label + name + ' equation residual', worst[i], 0.0, 0.0, atol=tol, regime=regime,
+        o.close(label + name + ' equation residual', worst[i], 0.0, 0.0, atol=tol + noise[i], regime=regime,
                 res_h=float(np.max(np.abs(res[0][i]))), res_h2=float(np.max(np.abs(res[1][i]))))
     return bool(nonconst)
 
